@@ -226,3 +226,87 @@ def compare(trial, obs, resp):
     if m == o: return None
     ci = next((i for i, (a, b) in enumerate(zip(o, m)) if a != b), min(len(o), len(m)))
     return ci, (o[ci] if ci < len(o) else None), (m[ci] if ci < len(m) else None)
+
+
+# ---------------------------------------------------------------------------------------------- liveness of a chain (OFProps/C06Net.lean)
+
+def live_src(rng):
+    """a source that always has a next frame (dict, lone frame, `{}` or a callable giving one - never `None`)"""
+    b = {'kind': 'src', 'topics': rng.choice([['main'], ['main'], ['main', 'aux'], ['main', '_h'], ['aux', 'main'], ['_h']])}
+    if rng.random() < 0.2: b['defer'] = True
+    elif rng.random() < 0.15: b['lone'] = True
+    if rng.random() < 0.1: b['empty'] = [rng.randrange(6)]
+    return b
+
+
+def pull(t, i):
+    """schedule `pull t i` of theorem C06_net_chain_progress"""
+    if i == 0: return [{'k': 'recv', 'i': 0}]
+    return [{'k': 'recv', 'i': i}] + pull(t, i - 1) + [{'k': 'send', 'i': i - 1, 't': t}, {'k': 'recv', 'i': i}, {'k': 'send', 'i': i - 1, 't': t}, {'k': 'recv', 'i': i}]
+
+
+def progress(t, L):
+    return [{'k': 'send', 'i': L - 1, 't': t}] + pull(t, L - 1)
+
+
+def fair_rounds(rng, L, rounds, t0):
+    """`rounds` rounds, each containing a `recv` and a `send` of every node at least once, in random order with random repetitions and clock steps"""
+    evs, t = [], t0
+    for _ in range(rounds):
+        t += rng.choice([0, 1, 50, 100, 100, 2500, 6000])
+        r = [{'k': 'recv', 'i': i} for i in range(L)] + [{'k': 'send', 'i': i, 't': t} for i in range(L)]
+        for _ in range(rng.randint(0, L)):
+            i = rng.randrange(L)
+            r.append({'k': 'recv', 'i': i} if rng.random() < 0.5 else {'k': 'send', 'i': i, 't': t})
+        rng.shuffle(r)
+        evs += r
+    return evs
+
+
+def gen_live_trial(rng, mode=None):
+    L = rng.choice([2, 3, 3, 4, 4, 5, 6])
+    ups, behs = [[]], [live_src(rng)]
+    for i in range(1, L):
+        ups.append([i - 1]); behs.append(fwd_relay(rng, i) if i < L - 1 else relay_any(rng, i))
+    topo = {'family': 'chain', 'ups': ups, 'behs': behs, 'victim': L - 1}
+    pre, t = gen_prefix(rng, topo)
+    mode = mode or rng.choice(['progress', 'progress', 'fair'])
+    t += rng.choice([0, 1, 100, 6000, 60000])
+    if mode == 'progress':
+        reps = rng.choice([1, 1, 2, 3])
+        cont = []
+        for _ in range(reps):
+            cont += progress(t, L); t += rng.choice([0, 100, 7000])
+        need = reps
+    else:
+        cont = fair_rounds(rng, L, 5 * (L - 1) + 3, t); need = 1
+    return {'topo': topo, 'prefix': pre, 'stall': cont, 'mode': mode, 'need': need}
+
+
+def run_live(trial):
+    """-> (per-event [(obs, snap)], info)   info: ids the REAL sink's recv returned during the continuation, its prev_id before it"""
+    logging.disable(logging.CRITICAL)
+    topo = trial['topo']
+    K = len(topo['ups']) - 1
+    rig = netfeed.Rig(topo)
+    out, rets, prev0 = [], [], -1
+    evs = trial['prefix'] + trial['stall']
+    npre = len(trial['prefix'])
+    for idx, ev in enumerate(evs):
+        if idx == npre: prev0 = rig.nodes[K]['mq'].receiver.prev_id
+        o = rig.event(idx, ev)
+        out.append((o, rig.snap()))
+        if o['k'] == 'rcvd' and any(x['k'] == 'dup' for x in o['outs']): break
+        if idx >= npre and ev['k'] == 'recv' and ev['i'] == K and o['k'] == 'rcvd' and o['id'] is not None: rets.append(o['id'])
+    if npre == len(evs): prev0 = rig.nodes[K]['mq'].receiver.prev_id
+    rig.close()
+    return out, {'prev0': prev0, 'returned': rets}
+
+
+def live_oracle(trial, info):
+    new = [x for x in info['returned'] if x > info['prev0']]
+    if len(new) < trial['need']:
+        L = len(trial['topo']['ups'])
+        return [('net-chain-no-progress', f"chain of {L}: after the {trial['mode']} continuation ({len(trial['stall'])} events) the sink's recv returned {new} above its prev_id {info['prev0']} "
+                 f"(expected at least {trial['need']} new frame set(s))")]
+    return []
